@@ -1,5 +1,5 @@
 (* C04 - Decoding never panics, whatever bytes arrive. *)
-From MQ Require Import Model.Stream Proofs.StreamP Proofs.DecP Proofs.ReadP.
+From MQ Require Import Model.Stream Proofs.StreamP Proofs.DecP Proofs.ReadP Model.WireDecIR Proofs.WireDecIRP gen.GenWireDec gen.SyncWireDec.
 
 (* UnmarshalBinary of every packet type, on every receiver state and
    every byte string, returns normally (Panic is produced in the model
@@ -30,3 +30,33 @@ Example C04_witnesses :
   /\ (exists p, unmarshal KSubAck zero_pkt
         [x00; x01; x09; x1f; x00; x03; x61; x62; x63; x1f; x00; x00] = UErr EMissingData p).
 Proof. split; [vm_compute; reflexivity|eexists; vm_compute; reflexivity]. Qed.
+
+(* The wire-level decoders the theorems above start from - dec_u8, dec_u16,
+   dec_u32, dec_bool, dec_bin (the dropped error of its length decoder and the
+   zero length that leaves the destination unchanged included), dec_raw,
+   dec_vb, dec_userprop, with Panic for every index or slice out of range -
+   are not only a hand-written reading of wiretypes.go: tools/gosync (wire.go)
+   translates UnmarshalBinary of the nine wire types statement by statement
+   (locals, assignments to *v, make and copy, `switch data[0]`, the range loop
+   of vbint) and regenerates the table on every run; it is the table the model
+   holds, and running each statement list - on every receiver value and every
+   byte string - is the decoder of Model/Wire.v: same value, same error
+   class, panic exactly where it panics. *)
+Theorem C04_wire_decoders_are_the_source :
+  g_wire_dec_progs = wire_dec_progs /\
+  (forall w old d, lift (value_of w) (run_wdec (dprog_of w) (wv_of w old) d) = decode w old d) /\
+  (forall old d, run_wdec dprog_ident old d = lift WVn (dec_u8 d)) /\
+  (forall old d, run_wdec dprog_userprop old d = lift (fun kv => WVp (fst kv) (snd kv)) (dec_userprop d)).
+Proof.
+  exact (conj sync_wire_dec_progs (conj wire_dec_is_prog (conj ident_dec_is_prog run_userprop_dec))).
+Qed.
+Print Assumptions C04_wire_decoders_are_the_source.
+
+(* non-vacuity: the regenerated statement lists on three inputs - a string of
+   length 2, a boolean byte that is neither 0 nor 1, an empty input to bits *)
+Example C04_wire_dec_example :
+  run_wdec (dprog_of Bin) (WVs []) [x00; "002"%byte; "104"%byte; "105"%byte; xff] = Ok (WVs ["104"%byte; "105"%byte])
+  /\ run_wdec (dprog_of WBool) (WVb false) ["002"%byte] = Err EMalformedBool
+  /\ run_wdec (dprog_of U8) (WVn 0) [] = Panic
+  /\ run_wdec (dprog_of Vb) (WVn 0) [x80; x80; x80; x80; x01] = Err ESizeExceeded.
+Proof. vm_compute. repeat split; reflexivity. Qed.
